@@ -68,8 +68,23 @@ class Evaluator:
                     return self.ev(o[1][1][2][o[2]])
                 raise Panic("payload of another variant")
         if k == "agg" and o[1] and o[1][0] == "adt":
+            if o[1][1] == "core::option::Option":
+                if o[1][3] == "None":
+                    return ("opt", False, None)
+                try:
+                    return ("opt", True, self.ev(o[2][0]))
+                except Unknown:
+                    pass
             # an enum value of known variant: usable as the operand of a discriminant read
             return ("enum", o[1][2])
+        if k == "agg" and o[1] and o[1][0] == "tuple":
+            vals = []
+            for x in o[2]:
+                try:
+                    vals.append(self.ev(x))
+                except Unknown:
+                    vals.append(None)
+            return ("tup", tuple(vals))
         if k == "const":
             if o[1] is None:
                 raise Unknown("constant %s" % (o[2],))
@@ -78,6 +93,8 @@ class Evaluator:
             return self.ev(o[1])
         if k == "cast":
             v = self.ev(o[4])
+            if isinstance(v, tuple) and v and v[0] in ("list", "tup") and not (o[3] in WIDTH):
+                return v          # unsizing / pointer coercions keep the value
             if isinstance(v, tuple):
                 raise Unknown("cast of non-integer")
             if o[1] in ("IntToInt", "int", "Transmute") or True:
@@ -121,6 +138,14 @@ class Evaluator:
                         raise Unknown("payload of %s" % (base[3],))
                     return pl
                 raise Unknown("payload of %s" % (base[3],))
+            try:
+                bv = self.ev(base)
+            except Unknown:
+                bv = None
+            if isinstance(bv, tuple) and bv and bv[0] == "tup" and isinstance(o[2], int) and o[2] < len(bv[1]):
+                if bv[1][o[2]] is None:
+                    raise Unknown("tuple element %d" % o[2])
+                return bv[1][o[2]]
             raise Unknown("field %s" % (o[3],))
         if k == "discr":
             inner = self.ev(o[1])
@@ -305,6 +330,28 @@ ASCII = {
 }
 
 
+def ast_literal(v):
+    """value of a literal expression of the syntax tree: ints / chars / bytes / bools, tuples and arrays of them"""
+    k = v.get("k")
+    if k == "Lit":
+        if v.get("t") in ("int", "byte"):
+            return int(v["v"])
+        if v.get("t") == "char":
+            return ord(v["v"])
+        if v.get("t") == "bool":
+            return 1 if v["v"] in (True, "true") else 0
+        return None
+    if k == "Tuple":
+        els = [ast_literal(e) for e in v["elems"]]
+        return None if any(e is None for e in els) else ("tup", tuple(els))
+    if k == "Array":
+        els = [ast_literal(e) for e in v["elems"]]
+        return None if any(e is None for e in els) else ("list", tuple(els))
+    if k == "Ref":
+        return ast_literal(v["e"])
+    return None
+
+
 class Model:
     """Evaluator with models of the pure std idioms that small table-like functions use (arrays and slices of known bytes,
     ranges, `iter().all(closure)`, `==` on arrays, ASCII class tests, Option adaptors, le/be byte conversions) and of calls to
@@ -391,6 +438,13 @@ class Model:
                             iv = None
                         if iv is not None:
                             return iv
+        if o[0] == "const" and o[1] is None and isinstance(o[2], str) and "::" in o[2] and str(o[3]).lstrip("&").startswith("[") and "[u8" not in str(o[3]):
+            # a named constant array of scalars / tuples of scalars: from the AST
+            cs = self.ctx.ast.const(o[2].split("::")[-1])
+            if len(cs) == 1:
+                lv = ast_literal(cs[0][3]["value"])
+                if lv is not None and lv[0] == "list":
+                    return lv
         if o[0] == "const" and o[1] is None and isinstance(o[2], str) and "::" in o[2] and "[u8" in str(o[3]):
             cs = self.ctx.ast.const(o[2].split("::")[-1])
             if len(cs) == 1:
@@ -441,7 +495,7 @@ class Model:
 
             def clo(a, x):
                 if a[0] == "agg" and a[1][0] == "closure":
-                    return self.eval_body(a[1][1], {2: x})
+                    return self.eval_body(a[1][1], self.closure_args(a, x, ev))
                 if a[0] == "fnconst":
                     return self.call(a[1], a[2], [("value", x)], ev)
                 raise Unknown("callable")
@@ -485,8 +539,22 @@ class Model:
             seq = ev.ev(args[0])
             if not (isinstance(seq, tuple) and seq[0] == "list"):
                 raise Unknown("iterator over a non-array")
-            res = [self.eval_body(args[1][1][1], {2: x}) for x in seq[1]]
+            res = [self.eval_body(args[1][1][1], self.closure_args(args[1], x, ev)) for x in seq[1]]
             return (1 if all(res) else 0) if d.endswith("all") else (1 if any(res) else 0)
+        if re.search(r"Iterator::(find|position|find_map)$", d) and len(args) == 2 and args[1][0] == "agg" and args[1][1][0] == "closure":
+            seq = ev.ev(args[0])
+            if not (isinstance(seq, tuple) and seq[0] == "list"):
+                raise Unknown("iterator over a non-array")
+            for i, x in enumerate(seq[1]):
+                r = self.eval_body(args[1][1][1], self.closure_args(args[1], x, ev))
+                if d.endswith("find_map"):
+                    if not (isinstance(r, tuple) and r[0] == "opt"):
+                        raise Unknown("find_map closure result")
+                    if r[1]:
+                        return r
+                elif r:
+                    return ("opt", True, x if d.endswith("find") else i)
+            return ("opt", False, None)
         if re.search(r"cmp::PartialEq::(eq|ne)$", d) and len(args) == 2:
             a, b = ev.ev(args[0]), ev.ev(args[1])
             return 1 if (a == b) == d.endswith("eq") else 0
@@ -498,9 +566,20 @@ class Model:
             v = ev.ev(args[0])
             if isinstance(v, tuple) and v[0] == "list" and len(v[1]) == 4:
                 return int.from_bytes(bytes(v[1]), "big")
-        if self.local_prefix and name.startswith(self.local_prefix) and self.ctx.mir.body(name) is not None:
+        if self.local_prefix and (name.startswith(self.local_prefix) or (name.startswith("<") and ((" as " + self.local_prefix) in name or name.startswith("<" + self.local_prefix)))) \
+                and self.ctx.mir.body(name) is not None:
             return self.eval_body(name, {i + 1: ev.ev(a) for i, a in enumerate(args)})
         return None
+
+    def closure_args(self, a, x, ev):
+        """arguments of a closure body: _1 = the environment (captured values, evaluated where the closure is built), _2 = the item"""
+        ups = []
+        for u in a[2]:
+            try:
+                ups.append(ev.ev(u))
+            except Unknown:
+                ups.append(None)
+        return {1: ("tup", tuple(ups)), 2: x}
 
     _ROWS = {}
     _MEMO = {}
@@ -533,6 +612,10 @@ class Model:
                 if v is None:
                     raise Unknown("call %s" % ret[1][5:])
                 vals.add(v)
+            elif ret[1] == "None" and not ret[3]:
+                vals.add(("opt", False, None))
+            elif ret[1] == "Some" and len(ret[3]) == 1:
+                vals.add(("opt", True, sub.ev.ev(ret[3][0])))
             elif ret[3]:
                 vals.add(sub.ev.ev(ret[3][0]))
             else:
